@@ -103,6 +103,20 @@ CHECKS = {
             "and fine driver drifts and epsilon = h^beta.",
             "Rates are those verified by C01; copula couplings restricted to finite-variation margins and small "
             "level-0 grids (<= 49 states in 2-d, 125 in 3-d), one refinement."),
+    "C10": ("3/C10",
+            "Hypothesis-generated arguments, conversion sequences and exponential models; oracles = quadrature of "
+            "the Levy-Khintchine integrand of the declared triplet, Cauchy-integral derivatives of the exponent, "
+            "definition-based drift conversions, martingale identities under each simulation route",
+            "Exploration: levy_exponent(u) for real and complex u inside the strip of analyticity is compared "
+            "(real and imaginary part separately) with i u a - sigma^2 u^2/2 + quadrature of (e^{iux}-1-iux c(x)) "
+            "nu(x) for the representation the model declares (five CGMY branches incl. y<0, 0, 1); every stated "
+            "cumulant with the n-th derivative of the exponent (256-node Cauchy integral); sequences of up to 6 "
+            "representation changes against the definition of each drift (quadrature) and for reversibility; for "
+            "exponential models the forward is recovered from the characteristic function at -i, from the "
+            "direct-simulation drift (HEM, Merton, BS) and from the Markov-chain drift under the exact truncated "
+            "jump law (up to the independently computed truncation leak).",
+            "Arguments |Re u|<=6, |Im u| <= 0.45 x decay rate; tolerance 1e-7 of the absolute integrals; the "
+            "Markov-chain route uses the rates verified by C01."),
 }
 
 NOT_YET = "check not built yet in this session; will be claimed when its module exists"
